@@ -267,6 +267,12 @@ def build_cases(tier):
                for ha in range(3) for va in range(3)]
     if quick:
         aligned = [a for a in aligned if a[0] in (-3, 0, 1, 2, 4, 5) and a[1] in (-2, 0, 1, 3, 4)]
+    # relative dimensions that reach the max(terminal + d, 1) clamp (|d| >= terminal dimension)
+    clamp = [(pw, ph, ha, va) for pw in (-9, -8, -6, 0, 2) for ph in (-7, -6, -5, 0, 2)
+             for ha in (0, 1, 2) for va in (0, 1, 2) if pw < -3 or ph < -3]
+    if quick:
+        clamp = [a for a in clamp if (a[2], a[3]) in ((0, 0), (1, 1), (2, 2))]
+    aligned = aligned + clamp
     exact = list(itertools.product(range(3), repeat=4))
     if quick:
         exact = [e for e in exact if sum(1 for v in e if v) <= 2 or e in ((1, 1, 1, 1), (2, 1, 1, 2), (1, 2, 2, 1))]
